@@ -42,28 +42,46 @@ theorem locked_unique (p : List Instr) (hp : WellLocked p) (c0 : Nat) (rem : Nat
     exact I.taken_disjoint i j v hij
       (by unfold taken; simp [hi]) (by unfold taken; simp [hj])
 
-/-- **no gaps, no foreign numbers** at any moment of any schedule: every returned number lies in
-`[c0, counter)`, and every number of that range has been returned to some thread or is held by a
-thread that is still inside its call (`pc ≠ 0`).  At a quiescent moment the returned numbers are
-exactly `c0 … counter-1`. -/
+/-- **no gaps, no foreign numbers, one owner** at any moment of any schedule.  `x` names the positions
+of the shape (`x.W` the counter write, `x.r` the returned register).  A thread *has* the number `v` when
+`v` was returned to it, or when it is past the write of its current call and its return register holds
+`v`.  Then: every returned number lies in `[c0, counter)`; and every number of `[c0, counter)` is had by
+**exactly one** thread.  (At a quiescent moment: the returned numbers are exactly `c0 … counter-1`,
+each returned once.) -/
 theorem locked_gap_free (p : List Instr) (hp : WellLocked p) (c0 : Nat) (rem : Nat → Nat)
     (sched : List Nat) :
     let s := runSched p (initSt c0 rem) sched
+    ∃ x, Shape p x ∧
     (∀ i v, v ∈ (s.th i).handed → c0 ≤ v ∧ v < s.ctr) ∧
-    (∀ v, c0 ≤ v → v < s.ctr → ∃ i, v ∈ (s.th i).handed ∨ (s.th i).pc ≠ 0) := by
+    (∀ v, c0 ≤ v → v < s.ctr →
+      ∃ i, (v ∈ (s.th i).handed ∨ (x.W < (s.th i).pc ∧ (s.th i).locals x.r = v)) ∧
+        ∀ j, (v ∈ (s.th j).handed ∨ (x.W < (s.th j).pc ∧ (s.th j).locals x.r = v)) → j = i) := by
   obtain ⟨x, hx⟩ := hp
   intro s
   have I : Inv p x c0 rem s := inv_run hx (inv_init p x c0 rem hx) sched
-  constructor
+  have hmem : ∀ j v, (v ∈ (s.th j).handed ∨ (x.W < (s.th j).pc ∧ (s.th j).locals x.r = v)) ↔
+      v ∈ taken x (s.th j) := by
+    intro j v
+    unfold taken pend
+    by_cases hw : x.W < (s.th j).pc
+    · simp [hw]; constructor
+      · rintro (h | h)
+        · exact Or.inl h
+        · exact Or.inr h.symm
+      · rintro (h | h)
+        · exact Or.inl h
+        · exact Or.inr h.symm
+    · simp [hw]
+  refine ⟨x, hx, ?_, ?_⟩
   · intro i v hv
     exact I.taken_bounds i v (by unfold taken; simp [hv])
   · intro v h1 h2
     obtain ⟨i, hi⟩ := I.gap_free v h1 h2
-    refine ⟨i, ?_⟩
-    unfold taken at hi
-    rcases List.mem_append.mp hi with h | h
-    · exact Or.inl (by simpa using h)
-    · exact Or.inr (mem_pend_pc _ v h)
+    refine ⟨i, (hmem i v).mpr hi, ?_⟩
+    intro j hj
+    apply Classical.byContradiction
+    intro hne
+    exact I.taken_disjoint j i v hne ((hmem j v).mp hj) hi
 
 /-- each thread receives increasing numbers (newest first in `handed`) -/
 theorem locked_in_order (p : List Instr) (hp : WellLocked p) (c0 : Nat) (rem : Nat → Nat)
@@ -540,6 +558,172 @@ theorem par_world (w w' : World) (i n : Nat) (im : Impl) (threads : List (List P
   · rw [← hw]
     have : c' = n + ids.length := by omega
     rw [this]
+
+/-- **link to what the driver calls**: `World.par` is "let the adapters of each request's connection
+process its headers, then `parCore`" — so `par_world` speaks about every `par` line. -/
+theorem par_link (g : Cfg) (w : World) (i : Nat) (threads : List (List ParReq)) (sched : List (Nat × Nat))
+    (r : World × List (List Headers)) :
+    w.par g i threads sched = .ok r ↔
+      ∃ threads', threads.mapM (fun t => t.mapM (adaptReq w)) = .ok threads' ∧
+        w.parCore g i threads' sched = .ok r := by
+  unfold World.par
+  cases threads.mapM (fun t => t.mapM (adaptReq w)) with
+  | error e => simp
+  | ok t => simp
+
+/-- **`parCore` is total** on well-formed input: with an existing implementation object, requests whose
+connections all belong to it and calls that fit the drain (`hfuel`), it returns a result — in particular
+its `assembleAll … = none → AssertionError` branch is unreachable (the numbers `runPar` returns always
+match the requests that need one, by `par_ids`), and no schedule makes it fail (`par_total`). -/
+theorem parCore_total (w : World) (i : Nat) (im : Impl) (threads : List (List ParReq))
+    (need : List (List Bool)) (sched : List (Nat × Nat))
+    (hi : w.impls[i]? = some im)
+    (hneed : threads.mapM (fun t => t.mapM (needsId Gen.C16.cfg w i)) = some need)
+    (hfuel : ∀ t, reqOf (need.map fun t => (t.filter id).length) t * Gen.C16.reqIdProgram.length ≤ drainRun) :
+    ∃ r, w.parCore Gen.C16.cfg i threads sched = .ok r := by
+  unfold World.parCore
+  simp only [hi, hneed]
+  cases hn : im.ctr with
+  | none => exact ⟨_, rfl⟩
+  | some n =>
+    simp only []
+    obtain ⟨nums, c', hrun⟩ := par_total Gen.C16.cfg.prog program_ok n _ sched hfuel
+    obtain ⟨p1, p2, _⟩ := par_ids Gen.C16.cfg.prog program_ok n _ sched nums c' hrun
+    rw [hrun]
+    simp only []
+    obtain ⟨out, hout⟩ := assembleAll_some Gen.C16.cfg w i im.cp threads need nums hneed
+      (by simpa using p1)
+      (fun t k htk => by
+        obtain ⟨l, h1, h2, _⟩ := p2 t k htk
+        exact ⟨l, h1, h2⟩)
+    rw [hout]
+    exact ⟨_, rfl⟩
+
+/-- a successful sequential request either leaves the world as it is (ids disabled, or an id was
+present after the adapters) or moves the counter of its implementation object from `n` to `n + 1` and
+sends the rendering of `n` -/
+theorem request_cases (w w' : World) (c : Nat) (cn : Conn) (im : Impl) (src : HdrSrc) (hasData : Bool)
+    (hs' : Headers) (hc : w.conns[c]? = some cn) (hi : w.impls[cn.impl]? = some im)
+    (h : w.request Gen.C16.cfg c src hasData = .ok (w', hs')) :
+    w' = w ∨ ∃ n, im.ctr = some n ∧
+      w' = { w with impls := setImpl w.impls cn.impl { im with ctr := some (n + 1) } } ∧
+      sentId Gen.C16.hdrName hs' = some (render im.cp Gen.C16.idFormat n) := by
+  obtain ⟨hs0, hs1, hs2, _, _, rid, rs2, _⟩ := request_spec w w' c cn im src hasData hs' hc hi h
+  cases hctr : im.ctr with
+  | none =>
+    unfold World.idBranch at rid
+    simp [hctr] at rid
+    exact Or.inl rid.1.symm
+  | some n =>
+    cases hany : hs1.any (fun kv => Gen.C16.hdrTest.holds kv.1) with
+    | true =>
+      unfold World.idBranch at rid
+      have : hs1.any (fun kv => Gen.C16.cfg.test.holds kv.1) = true := hany
+      simp [hctr, this] at rid
+      exact Or.inl rid.1.symm
+    | false =>
+      rw [request_auto w cn.impl n im hs1 hctr hany] at rid
+      simp only [Except.ok.injEq, Prod.mk.injEq] at rid
+      obtain ⟨e1, e2⟩ := rid
+      refine Or.inr ⟨n, rfl, e1.symm, ?_⟩
+      rw [rs2, ← e2]
+      apply sentId_setHeader
+      intro kv hkv hcap
+      have := test_covers kv.1 hcap
+      have hall := List.any_eq_false.mp hany kv hkv
+      exact hall this
+
+/-- **history level**: whatever the caller does, in whatever order — new connections, derived
+connections of any class, caller dicts, sequential requests (with or without their own id, with or
+without a body), batches of concurrent requests under any schedule — every generated id that was sent
+is the rendering of a number below the present counter of its implementation object, and **no
+implementation object ever sent the same generated id twice** (the log pairs every id with the
+implementation object it was generated by; derived connections log under their parent's object). -/
+theorem history_ids_distinct (ops : List Op) (w : World) (log : IdLog)
+    (H : HistInv Gen.C16.idFormat w.impls log) :
+    HistInv Gen.C16.idFormat (runOps Gen.C16.cfg (w, log) ops).1.impls (runOps Gen.C16.cfg (w, log) ops).2 := by
+  induction ops generalizing w log with
+  | nil => exact H
+  | cons op ops ih =>
+    show HistInv _ (runOps Gen.C16.cfg (histStep Gen.C16.cfg (w, log) op) ops).1.impls _
+    have step : HistInv Gen.C16.idFormat (histStep Gen.C16.cfg (w, log) op).1.impls
+        (histStep Gen.C16.cfg (w, log) op).2 := by
+      cases op with
+      | newImpl cp ids => exact H.append_impl _
+      | newDict hs => exact H
+      | wrap c cls ad =>
+        simp only [histStep]
+        split
+        · rename_i w' c' hw
+          obtain ⟨_, _, _, _, _, _, himp, _⟩ := derived_shares w w' c c' cls ad hw
+          rw [himp]; exact H
+        · exact H
+      | req c src d =>
+        simp only [histStep]
+        split
+        · rename_i cn w' hs' hc hreq
+          cases hi : w.impls[cn.impl]? with
+          | none =>
+            unfold World.request at hreq
+            simp [hc, hi] at hreq
+          | some im =>
+            rcases request_cases w w' c cn im src d hs' hc hi hreq with e | ⟨n, hn, e, hsent⟩
+            · subst e; simp; exact H
+            · have hlt : cn.impl < w.impls.length := by
+                apply Classical.byContradiction
+                intro hge
+                rw [List.getElem?_eq_none (by omega)] at hi; cases hi
+              have him : w.impls[cn.impl] = im := by
+                have := hi; rw [List.getElem?_eq_getElem hlt] at this; exact Option.some.inj this
+              have hne : ctrOf w'.impls cn.impl ≠ ctrOf w.impls cn.impl := by
+                rw [e]; simp [ctrOf, setImpl, hlt, him, hn]
+              simp only [hne, if_false]
+              have hsent' : sentId Gen.C16.cfg.name hs' = some (render im.cp Gen.C16.idFormat n) := hsent
+              rw [hsent', e]
+              exact H.advance (fun cp a b => format_injective cp a b) cn.impl n (n + 1) im hi hn (by omega)
+                [some (render im.cp Gen.C16.idFormat n)] (by simp)
+                (by intro x hx; simp at hx; exact ⟨n, by omega, by omega, hx⟩)
+        · exact H
+      | batch c threads sched =>
+        simp only [histStep]
+        split
+        · exact H
+        · rename_i cn hc
+          split
+          · exact H
+          · rename_i threads' _
+            split
+            · exact H
+            · rename_i w' out hpar
+              cases hi : w.impls[cn.impl]? with
+              | none =>
+                unfold World.parCore at hpar
+                simp [hi] at hpar
+              | some im =>
+                cases hn : im.ctr with
+                | none =>
+                  have hw : w' = w := by
+                    unfold World.parCore at hpar
+                    simp only [hi, hn] at hpar
+                    split at hpar
+                    · cases hpar
+                    · cases hpar; rfl
+                  have : (ctrOf w.impls cn.impl).isSome = false := by simp [ctrOf, hi, hn]
+                  simp only [this]
+                  rw [hw]; exact H
+                | some n =>
+                  have : (ctrOf w.impls cn.impl).isSome = true := by simp [ctrOf, hi, hn]
+                  simp only [this, if_true]
+                  obtain ⟨p1, p2, p3, _⟩ := par_world w w' cn.impl n im threads' sched out hi hn hpar
+                  rw [p3]
+                  exact H.advance (fun cp a b => format_injective cp a b) cn.impl n _ im hi hn (by omega) _ p1
+                    (fun x hx => p2 x hx)
+    exact ih _ _ step
+
+/-- the same, from the empty world: after any history, pairwise distinct -/
+theorem history_from_scratch (ops : List Op) :
+    (runOps Gen.C16.cfg (World.empty, []) ops).2.Nodup :=
+  (history_ids_distinct ops World.empty [] ⟨List.nodup_nil, fun _ _ h => by cases h⟩).1
 
 /-! Non-vacuity: the generated program and format evaluated by the kernel (outcomes that do not
 depend on the exact instruction count, so that a harmless rewrite of the source keeps them true). -/
